@@ -65,7 +65,7 @@ def gen_world(rng, prop, long_dim=False):
     consumer = rng.choice(["from_df", "set_values_from_df"]) if medium in ("df", "csv") else "from_df"
     flags = [False, False] if prop == "C11" else [rng.chance(0.4), rng.chance(0.4)]
     return {"dims": dims, "zeros": zeros, "vseed": rng.randint(0, 10 ** 6), "layout": layout, "medium": medium,
-            "consumer": consumer, "flags": flags}
+            "consumer": consumer, "flags": flags, "storage": rng.weighted([("C", 3), ("F", 2), ("einsum_view", 2), ("sliced", 1)])}
 
 
 def make_dims(world):
@@ -445,7 +445,13 @@ class IoChan(Engine):
             while int(np.prod([len(d["items"]) for d in world["dims"]])) > cap:
                 world = gen_world(rng, prop)
             world["enum_flags"] = task["idx"] % 4
-        if prop == "C11":
+        if prop == "C11" and task["kind"] == "trip" and rng.chance(0.3):
+            # harmful faults, judged only by the universal clause "whatever from_df returns comes from the unique row with those labels"
+            world["safety_only"] = True
+            world["flags"] = [rng.chance(0.5), rng.chance(0.5)]
+            ops = [self.gen_fault(rng, "C12") for _ in range(rng.randint(1, 3))]
+            ops = [f for f in ops if f["f"] in RECORD_FAULTS or f["f"].startswith("permute")]
+        elif prop == "C11":
             ops = [self.gen_fault(rng, prop) for _ in range(rng.randint(0, 3))]
         elif task["kind"] == "long":
             ops = [self.gen_fault(rng, "C11") for _ in range(rng.randint(0, 1))]
@@ -554,6 +560,7 @@ class IoChan(Engine):
         dl = list(dims)
         shape = tuple(len(d.items) for d in dl)
         X = FlodymArray(dims=dims, values=make_values(world, shape), name="X")
+        X = self._with_history(X, world.get("storage", "C"), st)
         wide = lay["wide"] if (lay["wide"] is not None and lay["wide"] < len(dl)) else None
         st.log.add("world", dims=[(d.letter, len(d.items), None if d.dtype is None else d.dtype.__name__) for d in dl],
                    layout=lay, medium=world["medium"], consumer=world["consumer"], flags=world["flags"])
@@ -623,6 +630,7 @@ class IoChan(Engine):
         st.sig.append((lay["header"], wide is not None, lay["index"], medium, consumer, tuple(flags), exp["mode"], exp["why"], outcome[0],
                        len(dl), lay["producer"]))
         tags["why"] = exp["why"]
+        tags["safety_only"] = bool(world.get("safety_only"))
         tags["flags"] = list(flags)
         # ---------------- oracle
         self._judge(st, prop, exp, outcome, result, fired, X, target, tsnap, consumer, tags, dims)
@@ -641,6 +649,30 @@ class IoChan(Engine):
             if not np.array_equal(target.values, X.values):
                 raise Violation("recovery-after-fault", "re-importing the intact table into the same target did not give the original array",
                                 cls="recovery-after-fault", **tags)
+
+    def _with_history(self, X, storage, st):
+        """the exported array is the product of a history: its values may be a Fortran-ordered array the caller passed in,
+        a transposed einsum view (sum_to in another dimension order) or the copy made by a slice read"""
+        vals = X.values
+        if storage == "F" and vals.ndim >= 2:
+            self._probe(st, "source_fortran_ordered")
+            return FlodymArray(dims=X.dims, values=np.asfortranarray(vals), name="X")
+        if storage == "einsum_view" and vals.ndim >= 2:
+            rev = DimensionSet(dim_list=list(X.dims)[::-1])
+            Y = FlodymArray(dims=rev, values=np.ascontiguousarray(np.transpose(vals)), name="Y")
+            Z = Y.sum_to(tuple(X.dims.letters))
+            if not Z.values.flags["C_CONTIGUOUS"]:
+                self._probe(st, "source_noncontiguous_view")
+            Z.name = "X"
+            return Z
+        if storage == "sliced" and vals.ndim >= 1:
+            extra = Dimension(name="Scenario", letter="s", items=["s0", "s1"])
+            big = FlodymArray(dims=DimensionSet(dim_list=list(X.dims) + [extra]), values=np.stack([vals, vals + 1.0], axis=-1))
+            Z = big["s0"]
+            Z.name = "X"
+            self._probe(st, "source_is_slice_result")
+            return Z
+        return X
 
     def _judge_to_df(self, st, frame, dims, X, wide, sparse, tags):
         self._cnt(st, "to_df-lists-every-entry")
@@ -774,6 +806,11 @@ class IoChan(Engine):
     def _judge(self, st, prop, exp, outcome, result, fired, X, target, tsnap, consumer, tags, dims):
         mode = exp["mode"]
         kind = outcome[0]
+        if tags.get("safety_only"):
+            if kind == "ret" and exp.get("K") is not None:
+                self._cnt(st, "never-wrong-data")
+                self._safety(st, result.values, exp, tags, exempt=set())
+            return
         # ---- injected I/O error must surface
         if "read_error" in fired:
             self._cnt(st, "io-error-surfaces")
